@@ -290,7 +290,7 @@ class DenseOutput(object):
 
     def remove_interpolant(self, idx):
         out = self.t_eval.pop(idx), self.y_interpolants.pop(idx)
-        self.__t_eval_arr = D.ar_numpy.stack(self.t_eval)
+        self.__t_eval_arr_stale = True
         return out
 
     def __len__(self):
@@ -1070,6 +1070,9 @@ class OdeSystem(object):
                                     self.__events.append(ev_state)
 
                         if end_int:
+                            # the step that contains the terminal event is rolled back and re-integrated up to the event:
+                            # its dense-output piece goes with it
+                            self.__sol.remove_interpolant(-1 if dTime >= 0 else 0)
                             self.integrate(roots[-1])
                             self.__int_status = 2
                         else:
